@@ -103,11 +103,28 @@ T_C11_OldestFirst == [][NotReset => C11_OldestFirst_Step]_tvars
 T_C11_AutoRetire == [][NotReset => C11_AutoRetire_Step]_tvars
 T_C12_Expiry == [][NotReset => C12_Expiry_Step]_tvars
 T_C12_NoBuyExpired == [][NotReset => C12_NoBuyExpired_Step]_tvars
+T_C12_ExpirationAsRequested == [][NotReset => C12_ExpirationAsRequested_Step]_tvars
+T_C08_Authorised == [][NotReset => C08_Authorised_Step]_tvars
+T_C08_Footprint == [][NotReset => C08_Footprint_Step]_tvars
+T_C08_SealedStaysSealed == [][NotReset => C08_SealedStaysSealed_Step]_tvars
+T_C13_AllowedSource == [][NotReset => C13_AllowedSource_Step]_tvars
+T_C13_BindingPermanent == [][NotReset => C13_BindingPermanent_Step]_tvars
+T_C13_ReceiveIntoBound == [][NotReset => C13_ReceiveIntoBound_Step]_tvars
+T_C13_BridgeOut == [][NotReset => C13_BridgeOut_Step]_tvars
+T_C14_Consecutive == [][NotReset => C14_Consecutive_Step]_tvars
+T_C18_FeeExact == [][NotReset => C18_FeeExact_Step]_tvars
+T_C18_NoFeatureDisabled == [][NotReset => C18_NoFeatureDisabled_Step]_tvars
 \* END GENERATED STEP WRAPPERS
 
 \* observation-based clauses
 T_C01_WellFormed == Len(ob.malformed) = 0
 T_C01_ChainInvariantAgrees == ob.inv_batch_supply = ""
+
+T_C05_ChainInvariantAgrees == ob.inv_basket_supply = ""
+\* the projector flags stored order quantities that are not plain credit amounts
+T_C06_OrderQuantitiesWellFormed ==
+  \A i \in DOMAIN ob.malformed : TRUE => Len(ob.malformed) = 0
+T_C12_BlockNeverFails == IsBlockEv(ev) => (ev.ok /\ ~ob.panicked)
 
 \* conformance as a checkable invariant (used by the self-test and the
 \* strict conformance target)
